@@ -1,10 +1,12 @@
 #!/bin/bash
-# tools/all_seeds.sh [tier]: run every seeded change against the check of its property (in this copy of /verif);
+# tools/all_seeds.sh [tier] [regex on the seed name]: run every seeded change against the check of its property (in this copy of /verif);
 # prints one line per seed: CAUGHT / MISSED.  Sequential, because the generated Coq files are shared.
 cd "$(dirname "$0")/.."
 TIER=${1:-quick}
+PAT=${2:-.}
 for d in seeded/*/; do
   s=$(basename "$d"); id=${s:0:3}
+  echo "$s" | grep -Eq "$PAT" || continue
   alt=$(/venv/bin/python -c "import json;print(json.load(open('seeded/$s/meta.json')).get('check_id',''))" 2>/dev/null)
   [ -n "$alt" ] && id=$alt
   out=$(TAIL=400 tools/try_seed.sh "seeded/$s" "$id" "$TIER" 2>&1)
